@@ -157,6 +157,15 @@ pub fn load_known() -> Vec<Known> {
         .collect()
 }
 
+pub fn load_known_raw() -> Vec<Value> {
+    let p = format!("{}/known_findings.json", verif_root());
+    std::fs::read_to_string(&p)
+        .ok()
+        .and_then(|t| serde_json::from_str::<Value>(&t).ok())
+        .and_then(|v| v.as_array().cloned())
+        .unwrap_or_default()
+}
+
 fn digest(s: &str) -> String {
     // FNV-1a, enough for a file name
     let mut h: u64 = 0xcbf29ce484222325;
@@ -407,4 +416,44 @@ pub fn par_sweep<S: Send + Sync>(shards: Vec<S>, f: impl Fn(&S, &mut Stats) + Sy
             st
         })
         .reduce(Stats::default, Stats::merge)
+}
+
+// ---------------------------------------------------------------------------
+// crash handler: a stack overflow (or any fatal signal) in the subject while a
+// watched case is running becomes a VIOLATION with a replay file instead of a
+// silent abort of the harness.
+
+static CRASH_ID: Mutex<&'static str> = Mutex::new("");
+
+extern "C" fn on_fatal(sig: libc::c_int) {
+    let id = CRASH_ID.try_lock().map(|g| *g).unwrap_or("C05");
+    let text = MY_SLOT
+        .try_with(|s| s.text.try_lock().map(|t| t.clone()).unwrap_or_default())
+        .unwrap_or_default();
+    let root = verif_root();
+    let body = json!({"property": id, "check": "crash", "key": "crash/fatal-signal",
+        "case": {"kind": "crash", "text": text, "signal": sig},
+        "expected": "returns Ok or Err", "actual": format!("process received fatal signal {} (stack overflow / abort)", sig)});
+    let txt = serde_json::to_string_pretty(&body).unwrap_or_default();
+    let _ = std::fs::create_dir_all(format!("{}/replays", root));
+    let path = format!("{}/replays/{}-{}.json", root, id, digest(&txt));
+    let _ = std::fs::write(&path, &txt);
+    let line = format!("VIOLATION property={} replay={}  key=crash/fatal-signal signal={} case={}\n", id, path, sig, trunc(&text, 200));
+    unsafe {
+        libc::write(1, line.as_ptr() as *const libc::c_void, line.len());
+        libc::_exit(1);
+    }
+}
+
+pub fn install_crash_handler(id: &'static str) {
+    *CRASH_ID.lock().unwrap() = id;
+    unsafe {
+        let mut sa: libc::sigaction = std::mem::zeroed();
+        sa.sa_sigaction = on_fatal as usize;
+        sa.sa_flags = libc::SA_ONSTACK;
+        libc::sigemptyset(&mut sa.sa_mask);
+        for s in [libc::SIGSEGV, libc::SIGBUS, libc::SIGABRT, libc::SIGILL] {
+            libc::sigaction(s, &sa, std::ptr::null_mut());
+        }
+    }
 }
